@@ -3,7 +3,7 @@
    the correspondence run, not verified); schema conformance of all fields is an oracle. *)
 From Coq Require Import Lia Permutation Sorted.
 From RM Require Import Gen.C15Fmt.
-From RM Require Import C15.Model C15.Schema C15.Widths C15.Utf8 C15.Pretty C15.Proofs C15.Proofs2 C15.Proofs3 C15.Proofs4 C15.Proofs5 C15.Proofs6 C15.Proofs7 C15.Scalar C15.Proofs8 C15.Proofs9 C15.Regs C15.Proofs10 C15.Consistent C15.Proofs11 C15.Proofs12 C15.Proofs13 C15.Offsets C15.Proofs14 C15.KeyOrder C15.Proofs15 C15.Proofs16 C15.Float C15.Proofs17 C15.FnOffsets C15.Proofs18.
+From RM Require Import C15.Model C15.Schema C15.Widths C15.Utf8 C15.Pretty C15.Proofs C15.Proofs2 C15.Proofs3 C15.Proofs4 C15.Proofs5 C15.Proofs6 C15.Proofs7 C15.Scalar C15.Proofs8 C15.Proofs9 C15.Regs C15.Proofs10 C15.Consistent C15.Proofs11 C15.Proofs12 C15.Proofs13 C15.Offsets C15.Proofs14 C15.KeyOrder C15.Proofs15 C15.Proofs16 C15.Float C15.Proofs17 C15.FnOffsets C15.Proofs18 C15.FloatQ C15.Proofs19.
 From RM Require C19.Model.
 From Flocq Require IEEE754.Binary IEEE754.Bits.
 Open Scope Z_scope.
@@ -789,3 +789,25 @@ Proof.
   split; [apply report_pure; vm_compute; reflexivity|vm_compute; reflexivity].
 Qed.
 Print Assumptions c15_function_offsets_rejects.
+
+(* ------------------------------------------------------------------ what the integer tests of the confidence judgement mean
+   [scale_cmp c k w q] is the comparison of c * 10^k with w * 2^q as RATIONAL numbers (all integers c k w q); hence [in_interval m e c k]
+   is the two-sided inequality [interval_Q] around the widened value, whose frame [b64_frame] is, for every mantissa below 2^53, a
+   53-bit mantissa (times 4: quarter ulps) denoting the same number, the lower half-gap halved only below a power of two [frame_Q]
+   (definitions in C15/FloatQ.v). *)
+Theorem c15_confidence_interval : forall m e c k w q,
+  scale_cmp c k w q = cmp_Q c k w q /\ (in_interval m e c k = true <-> interval_Q m e c k) /\
+  (0 < m < 9007199254740992 -> frame_Q m e).
+Proof. intros. split; [apply scale_cmp_spec|]. split; [apply in_interval_spec|apply b64_frame_spec]. Qed.
+Print Assumptions c15_confidence_interval.
+
+(* Flocq's own normalisation of the decoded m * 2^e to binary64 (round to nearest even - exact here) has the mantissa and the exponent
+   of [b64_frame], for the confidence of EVERY details value.  FINITE CHECK (vm_compute) over the 80 classes of details values, extended
+   to all values by C19's confidence_clamp; c15_widening_samples: the same on the smallest subnormal, the largest subnormal, the smallest
+   normal, 0.5, 1.0, 0.36874998 and the largest finite binary32. *)
+Theorem c15_widening_flocq : forall d : C19.Model.details, widen_agrees (C19.Model.confidence_bits d) = true.
+Proof. exact widen_ok. Qed.
+Print Assumptions c15_widening_flocq.
+Theorem c15_widening_samples : forallb widen_agrees [1; 8388607; 8388608; 1056964608; 1065353216; 1052560588; 2139095039] = true.
+Proof. exact widen_samples. Qed.
+Print Assumptions c15_widening_samples.
